@@ -1294,6 +1294,15 @@ fn pinned_compositions() -> Vec<PinnedComposition> {
             &[("m", "{% set v = 1 %}{% for i in [1, 2] %}{% include ['nope', 'inc'] %}{% endfor %}{% set v = 2 %}{% include 'inc' %}"), ("inc", "[{{ v }}{{ i }}]")],
             "[11][12][2]",
         ),
+        // missing candidates cost nothing that adds up: many includes in one render
+        mk(
+            "many_includes_with_missing_candidates",
+            &[
+                ("m", "{% for i in range(70) %}{% include ['nope', 'inc'] %}{% include 'nope' ignore missing %}{% include ['nope', 'nada'] ignore missing %}{% endfor %}|{% include 'inc' %}"),
+                ("inc", "."),
+            ],
+            &format!("{}|.", ".".repeat(70)),
+        ),
         // import exposes exactly the module's top-level macros and variables
         mk(
             "import_exposes_top_level_names",
